@@ -3,7 +3,11 @@
 
 //#define REQUIRE_EVALUATION_PROXY_CORE typename std::enable_if<squids::detail::isEvaluationProxy<ProxyType>::value>
 #define REQUIRE_EVALUATION_PROXY_CORE typename std::enable_if<std::is_base_of<detail::EvaluationProxy<ProxyType>,ProxyType>::value>
-#define REQUIRE_EVALUATION_PROXY_TPARAM typename= REQUIRE_EVALUATION_PROXY_CORE
+//The constraint on template parameters must name ::type to have any effect; without it every type was
+//accepted, so that e.g. (a+b)*2 selected the proxy-by-proxy scalar product with ProxyType=int (an exact
+//match, preferred over operator*(double)) and computed the trace of (a+b) with SU_vector(2).
+//isEvaluationProxy also accepts the guarantee<> wrappers, which are handled by the same templates.
+#define REQUIRE_EVALUATION_PROXY_TPARAM typename= typename std::enable_if<squids::detail::isEvaluationProxy<ProxyType>::value>::type
 #define REQUIRE_EVALUATION_PROXY_FPARAM REQUIRE_EVALUATION_PROXY_CORE ::type* =nullptr
 
 //Try to figue out how to spell hints to the optimizer
@@ -234,6 +238,8 @@ struct SU_vector_operator_access;
     SU_vector operator-(const SU_vector& other) const;
     ///time evolution according to an SU_vector operator
     SU_vector Evolve(const SU_vector& other, double t) const;
+    ///scalar product with an SU_vector
+    double operator*(const SU_vector& other) const;
     
     ///negation
     SU_vector operator-() const &;
